@@ -169,6 +169,9 @@ class Problem:
         self.ns = force.get("ns", int(rng.integers(1, 7)))
         self.nc = force.get("nc", int(rng.integers(1, 7)))
         self.family = force.get("family", str(rng.choice(["LTI", "LTI-shared", "LTV-idx", "LTV-idx", "LTV-func"])))
+        self.q_tv = bool(rng.random() < 0.75)            # Q, p per step, or time-invariant (tiled by LQR)
+        if not self.q_tv and self.B >= 2 and "T" not in force and rng.random() < 0.5:
+            self.T = self.B                              # the (batch, n, n) form of Q with a horizon as long as the batch is wide
         B, T, ns, nc = self.B, self.T, self.ns, self.nc
         N = ns + nc
         f32 = dn == "f32"
@@ -179,14 +182,15 @@ class Problem:
         self.c1_kind = force.get("c1", str(rng.choice(["none", "const", "const", "tv"])))
         if not self.family.startswith("LTV-idx") and self.c1_kind == "tv":
             self.c1_kind = "const"
-        self.q_tv = bool(rng.random() < 0.75)            # Q, p per step, or time-invariant (tiled by LQR)
         d = self.dtype
         # ---- units of the signals: the linear cost term, the affine drift and the initial state scale together, so the
         # optimal inputs scale by the same factor (micro-units / large units; every tolerance below is relative)
         self.units = float(force.get("units", rng.choice([1.0, 1.0, 1.0, 1e-6, 1e5])))
         un = self.units
         # ---- cost
-        qs = 10 ** rng.uniform(-1, 1)
+        # overall cost scale (the minimiser does not depend on it): costs in very small / large units
+        self.cost_scale = float(force.get("cost_scale", rng.choice([1.0, 1.0, 1.0, 1e-8, 1e6])))
+        qs = 10 ** rng.uniform(-1, 1) * self.cost_scale
         if self.q_tv:
             Q = np.stack([[gen.spd(rng, N, cond=self.kappa, scale=qs) for _ in range(T)] for _ in range(B)])
             p = rng.standard_normal((B, T, N)) * qs * un
@@ -260,12 +264,13 @@ class Problem:
 
     def describe(self):
         return {"family": self.family, "dtype": self.dn, "B": self.B, "T": self.T, "n_state": self.ns, "n_ctrl": self.nc,
-                "rho": self.rho, "kappa": self.kappa, "units": self.units, "c1": self.c1_kind, "Q_per_step": self.q_tv, "P": getattr(self, "P", None)}
+                "rho": self.rho, "kappa": self.kappa, "units": self.units, "cost_scale": self.cost_scale, "c1": self.c1_kind, "Q_per_step": self.q_tv, "P": getattr(self, "P", None)}
 
 
 # ----------------------------------------------------------------------------- the KKT monitor
-def check_solution(ck, rng, prob, b, x, u, cost, x0, regime, entry, key, pre):
-    """x (T+1,n), u (T,m), cost scalar: float64 copies of what the library returned for batch element b."""
+def check_solution(ck, rng, prob, b, x, u, cost, x0, regime, entry, key, pre, u_nom=None):
+    """x (T+1,n), u (T,m), cost scalar: float64 copies of what the library returned for batch element b.
+    u_nom (T,m): the nominal inputs the solve was started from (None = zeros)."""
     A, Bm, c1, Q, p = prob.Aref[b], prob.Bref[b], prob.c1ref[b], prob.Qref[b], prob.pref[b]
     ud = u_of(prob.dtype)
     T = prob.T
@@ -291,6 +296,17 @@ def check_solution(ck, rng, prob, b, x, u, cost, x0, regime, entry, key, pre):
     g_ad, J_open = R.grad_autograd(A, Bm, c1, Q, p, x0, u)
     g_co, _ = R.grad_costate(A, Bm, Q, p, x, u)
     s, fwd = R.gradient_scales(A, Bm, c1, Q, p, x, u, ud)
+    # the solver works with deviations from the nominal trajectory (its roll-out from x_init under the nominal inputs): every quantity
+    # it forms has the magnitude of that trajectory, which for an unstable system can exceed the optimal one by orders of magnitude -
+    # the round-off scale of the gradient is that of both trajectories
+    un_ = np.zeros_like(u) if u_nom is None else u_nom
+    xn_ = np.zeros_like(x)
+    xn_[0] = x0
+    for t_ in range(T):
+        xn_[t_ + 1] = A[t_] @ xn_[t_] + Bm[t_] @ un_[t_] + c1[t_]
+    if np.isfinite(xn_).all():
+        s_nom, _ = R.gradient_scales(A, Bm, c1, Q, p, xn_, un_, ud)
+        s = s + s_nom
     tol_co = C_GRAD * ud * s                 # stationarity at the returned (x, u)
     tol_g = tol_co + C_FWD * fwd             # exact open-loop roll-out of u: + propagated round-off of the returned x
     ck.count(pre + "gradient", regime, n=2 * T, key=key)
@@ -391,6 +407,9 @@ def marks_for(ck, prob):
     if prob.rho > 1:
         ck.mark("rho>1")
     ck.mark("units/%g" % prob.units)
+    ck.mark("cost-scale/%g" % prob.cost_scale)
+    if not prob.q_tv and prob.B >= 2 and prob.T == prob.B:
+        ck.mark("Q/time-invariant/T==B")
     ck.mark("c1/" + prob.c1_kind)
     ck.mark("Q/per-step" if prob.q_tv else "Q/time-invariant")
     if prob.family == "LTV-idx":
@@ -470,7 +489,8 @@ def run_lqr_problem(ck, rng, prob, pid):
         last_U = out[1].detach().clone()
         x0 = f64(x_init)
         for b in range(prob.B):
-            r = check_solution(ck, rng, prob, b, X[b], Uo[b], Co[b], x0[b], regime, "LQR", (pid, j, b), "lqr_")
+            r = check_solution(ck, rng, prob, b, X[b], Uo[b], Co[b], x0[b], regime, "LQR", (pid, j, b), "lqr_",
+                               u_nom=None if ut_before is None else f64(ut_before)[b])
             if r is None:
                 continue
             k = (b, x0[b].tobytes())
@@ -709,7 +729,7 @@ def run(ck):
         run_mpc_nls(ck, rng, "f64" if i % 2 == 0 else "f32", (ck.shard, pid))
 
     ck.require("solve/second-on-same-object", "solve/second-on-same-object/LTV", "solve/systime!=0-before-first",
-               "solve/nonzero-u_traj", "solve/on-a-deep-copied-system", "LTV-idx/period>=T/phase-offset", "solve/warm-start", "units/1", "units/1e-06", "units/100000", "solve/expanded-u_traj", "solve/same-u_traj-object-updated-in-place", "family/LTI", "family/LTI-shared", "family/LTV-idx", "family/LTV-func",
+               "solve/nonzero-u_traj", "cost-scale/1e-08", "cost-scale/1e+06", "Q/time-invariant/T==B", "solve/on-a-deep-copied-system", "LTV-idx/period>=T/phase-offset", "solve/warm-start", "units/1", "units/1e-06", "units/100000", "solve/expanded-u_traj", "solve/same-u_traj-object-updated-in-place", "family/LTI", "family/LTI-shared", "family/LTV-idx", "family/LTV-func",
                "dtype/f64", "dtype/f32", "B=1", "B=2", "B=3", "T=1", "T=2", "T=20",
                "n_state=1/T>=2/B>=2", "n_state=1/T>=2/unbatched-A", "n_state==n_ctrl", "kappa>=1e5", "rho>1",
                "c1/none", "c1/const", "c1/tv", "Q/per-step", "Q/time-invariant", "LTV-idx/period<T", "LTV-idx/period>=T",
